@@ -395,16 +395,31 @@ theorem mono_of_sorted (compound : Bool) (ks : List Bytes) (hs : ks.Pairwise (gt
   rw [hc i (by omega)]
   exact gtS_of_le compound _ _ _ hg hle
 
+/-- what the node lemmas use of `_kvblk_addkv` on block `b` for the record `(key, val)`: the geometry survives, the record sits in the
+returned slot, which was free, and all other slots keep their records. Holds on every `BlkInv` block (`geo_addkv`); the split lemmas
+(`Lemmas/KvChain.lean`) establish it for the two blocks of a split, whose cached `idxsz` / `zidx` are not those of `BlkInv`. -/
+def AddSpec (b : KvBlk) (key val : Bytes) : Prop := ∀ b' idx, addkv b key val = .ok b' idx →
+    Geo b' ∧ idx < b.slots.length ∧ (sl b.slots idx).len = 0 ∧ b'.slots.length = b.slots.length ∧
+    sl b'.slots idx = ⟨b'.maxoff, recSize key val, key, val⟩ ∧
+    ∀ i, i ≠ idx → (sl b'.slots i).len = (sl b.slots i).len ∧ (sl b'.slots i).key = (sl b.slots i).key ∧
+      (sl b'.slots i).val = (sl b.slots i).val
+
+theorem addSpec_of_blkInv {b : KvBlk} (h : BlkInv b) (key val : Bytes) : AddSpec b key val :=
+  fun b' idx e => geo_addkv h key val b' idx e
+
 /-- common part of `_sblk_addkv2` and `_sblk_addkv`: the record went into slot `kvidx`, the search (`cmp i` = comparison of the
 lookup key with the key at position `i`) did not find the key and gave position `idx` -/
-theorem core_inserted {compound : Bool} {n : Node} (hb : BlkInv n.blk) (h : Core compound n) (pre body val : Bytes)
+theorem core_inserted {compound : Bool} {n : Node} (h : Core compound n) (pre body val : Bytes)
+    (hb : AddSpec n.blk (pre ++ body) val)
     (b : KvBlk) (kvidx : Nat) (e : addkv n.blk (pre ++ body) val = .ok b kvidx) (idx : Nat) (cmp : Nat → Int)
     (hlt : n.pnum < Gen.KVBLK_IDXNUM) (hsk : WFS compound (pre ++ body)) (hpre : pre.length ≤ P)
     (hcmp : ∀ i, i < n.pi.length → cmp i = cmpS compound (keyAt n i) (pre ++ body))
     (hf : Found cmp n.pnum (false, idx)) :
     Geo b ∧ Core compound (if idx = 0 then cacheAdd (inserted n b kvidx idx) pre body else inserted n b kvidx idx) ∧
-    0 < (if idx = 0 then cacheAdd (inserted n b kvidx idx) pre body else inserted n b kvidx idx).pnum := by
-  obtain ⟨g, a1, a2, a3, a4, a5⟩ := geo_addkv hb _ _ b kvidx e
+    0 < (if idx = 0 then cacheAdd (inserted n b kvidx idx) pre body else inserted n b kvidx idx).pnum ∧
+    keys (if idx = 0 then cacheAdd (inserted n b kvidx idx) pre body else inserted n b kvidx idx) =
+      (keys n).take idx ++ (pre ++ body) :: (keys n).drop idx := by
+  obtain ⟨g, a1, a2, a3, a4, a5⟩ := hb b kvidx e
   have hpos := recSize_pos (pre ++ body) val
   have hins := core_insert h.noCache b kvidx idx (pre ++ body) a2
     ⟨by rw [a4]; show recSize (pre ++ body) val ≠ 0; omega, by rw [a4]⟩
@@ -416,7 +431,7 @@ theorem core_inserted {compound : Bool} {n : Node} (hb : BlkInv n.blk) (h : Core
       have := hf.miss rfl j hj (by rw [h.pnum]; exact hjl)
       rw [hcmp j hjl] at this
       exact (cmpS_flip compound _ _).2.2.1 this)
-  refine ⟨g, ?_, ?_⟩
+  refine ⟨g, ?_, ?_, ?_⟩
   · by_cases h0 : idx = 0
     · simp only [h0, if_true]
       rw [cacheAdd_eq _ _ _ hpre]
@@ -431,13 +446,16 @@ theorem core_inserted {compound : Bool} {n : Node} (hb : BlkInv n.blk) (h : Core
       rw [head?_insertAt _ _ _ h0 hle] at hk0
       exact h.cache k0 hk0
   · split <;> exact Nat.succ_pos _
+  · split <;> exact hins.1
 
 /-- `_sblk_addkv2` keeps the invariant: the key is new and `idx` is where `_sblk_find_pi_mm` puts it -/
-theorem core_addkv2 {compound : Bool} {n : Node} (hb : BlkInv n.blk) (h : Core compound n) (idx : Nat) (pre body val : Bytes)
+theorem core_addkv2' {compound : Bool} {n : Node} (h : Core compound n) (idx : Nat) (pre body val : Bytes)
+    (hb : AddSpec n.blk (pre ++ body) val)
     (cmpk : Bytes → Int) (hsk : WFS compound (pre ++ body)) (hpre : pre.length ≤ P)
     (hcmp : ∀ st ∈ keys n, cmpk st = cmpS compound st (pre ++ body))
     (hf : Found (fun i => cmpk (keyAt n i)) n.pnum (false, idx)) (n' : Node)
-    (e : addkv2 n idx pre body val = .ok n') : Geo n'.blk ∧ Core compound n' ∧ 0 < n'.pnum := by
+    (e : addkv2 n idx pre body val = .ok n') : Geo n'.blk ∧ Core compound n' ∧ 0 < n'.pnum ∧
+      keys n' = (keys n).take idx ++ (pre ++ body) :: (keys n).drop idx := by
   simp only [addkv2] at e
   split at e
   · exact absurd e (by simp)
@@ -447,12 +465,20 @@ theorem core_addkv2 {compound : Bool} {n : Node} (hb : BlkInv n.blk) (h : Core c
     · exact absurd e (by simp)
     · rename_i b kvidx hq
       simp only [Res.ok.injEq] at e
-      have := core_inserted hb h pre body val b kvidx hq idx (fun i => cmpk (keyAt n i)) (by omega) hsk hpre
+      have := core_inserted h pre body val hb b kvidx hq idx (fun i => cmpk (keyAt n i)) (by omega) hsk hpre
         (fun i hi => hcmp _ (by rw [keyAt_eq_getElem n i hi]; exact List.getElem_mem _)) hf
       rw [← e]
-      refine ⟨?_, this.2.1, this.2.2⟩
+      refine ⟨?_, this.2.1, this.2.2.1, this.2.2.2⟩
       have hg := this.1
       split <;> exact hg
+
+theorem core_addkv2 {compound : Bool} {n : Node} (hb : BlkInv n.blk) (h : Core compound n) (idx : Nat) (pre body val : Bytes)
+    (cmpk : Bytes → Int) (hsk : WFS compound (pre ++ body)) (hpre : pre.length ≤ P)
+    (hcmp : ∀ st ∈ keys n, cmpk st = cmpS compound st (pre ++ body))
+    (hf : Found (fun i => cmpk (keyAt n i)) n.pnum (false, idx)) (n' : Node)
+    (e : addkv2 n idx pre body val = .ok n') : Geo n'.blk ∧ Core compound n' ∧ 0 < n'.pnum :=
+  let r := core_addkv2' h idx pre body val (addSpec_of_blkInv hb _ _) cmpk hsk hpre hcmp hf n' e
+  ⟨r.1, r.2.1, r.2.2.1⟩
 
 /-! ### list helpers for `set` / `eraseIdx` on duplicate-free lists -/
 
@@ -501,11 +527,13 @@ theorem nodup_set {l : List Nat} (h : l.Nodup) (k : Nat) (a : Nat) (ha : a ∉ l
   · exact nodup_getElem_ne h i j hi' hj' (by omega)
 
 /-- `_sblk_addkv` keeps the invariant: the key is not in the node -/
-theorem core_addkvIns {compound : Bool} {n : Node} (hb : BlkInv n.blk) (h : Core compound n) (pre body val : Bytes)
+theorem core_addkvIns' {compound : Bool} {n : Node} (h : Core compound n) (pre body val : Bytes)
+    (hb : AddSpec n.blk (pre ++ body) val)
     (cmpk : Bytes → Int) (hsk : WFS compound (pre ++ body)) (hpre : pre.length ≤ P)
     (hcmp : ∀ st ∈ keys n, cmpk st = cmpS compound st (pre ++ body))
     (hnew : ∀ st ∈ keys n, cmpk st ≠ 0) (n' : Node)
-    (e : addkvIns n cmpk pre body val = .ok n') : Geo n'.blk ∧ Core compound n' ∧ 0 < n'.pnum := by
+    (e : addkvIns n cmpk pre body val = .ok n') : Geo n'.blk ∧ Core compound n' ∧ 0 < n'.pnum ∧
+      ∃ idx, keys n' = (keys n).take idx ++ (pre ++ body) :: (keys n).drop idx := by
   simp only [addkvIns] at e
   split at e
   · exact absurd e (by simp)
@@ -515,7 +543,7 @@ theorem core_addkvIns {compound : Bool} {n : Node} (hb : BlkInv n.blk) (h : Core
     · exact absurd e (by simp)
     · rename_i b kvidx hq
       simp only [Res.ok.injEq] at e
-      obtain ⟨g, a1, a2, a3, a4, a5⟩ := geo_addkv hb _ _ b kvidx hq
+      obtain ⟨g, a1, a2, a3, a4, a5⟩ := hb b kvidx hq
       have hnot : kvidx ∉ n.pi := fun hm => (h.mem kvidx).1 hm a2
       -- keys of the old positions are the same in the new block
       have hkey0 : ∀ i, i < n.pi.length → keyAt { n with blk := b } i = keyAt n i := by
@@ -533,10 +561,12 @@ theorem core_addkvIns {compound : Bool} {n : Node} (hb : BlkInv n.blk) (h : Core
       have fin : ∀ idx, Found (fun i => cmpk (keyAt { n with blk := b } i)) n.pnum (false, idx) →
           Geo (if idx = 0 then cacheAdd (inserted n b kvidx idx) pre body else inserted n b kvidx idx).blk ∧
           Core compound (if idx = 0 then cacheAdd (inserted n b kvidx idx) pre body else inserted n b kvidx idx) ∧
-          0 < (if idx = 0 then cacheAdd (inserted n b kvidx idx) pre body else inserted n b kvidx idx).pnum := by
+          0 < (if idx = 0 then cacheAdd (inserted n b kvidx idx) pre body else inserted n b kvidx idx).pnum ∧
+          ∃ idx', keys (if idx = 0 then cacheAdd (inserted n b kvidx idx) pre body else inserted n b kvidx idx) =
+            (keys n).take idx' ++ (pre ++ body) :: (keys n).drop idx' := by
         intro idx hf
-        have := core_inserted hb h pre body val b kvidx hq idx _ (by omega) hsk hpre hcmp' hf
-        refine ⟨?_, this.2.1, this.2.2⟩
+        have := core_inserted h pre body val hb b kvidx hq idx _ (by omega) hsk hpre hcmp' hf
+        refine ⟨?_, this.2.1, this.2.2.1, idx, this.2.2.2⟩
         have hg := this.1
         split <;> exact hg
       simp only [insertPi] at e
@@ -586,6 +616,14 @@ theorem core_addkvIns {compound : Bool} {n : Node} (hb : BlkInv n.blk) (h : Core
         simp only [Bool.false_eq_true, if_false] at e
         rw [← e]
         exact this
+
+theorem core_addkvIns {compound : Bool} {n : Node} (hb : BlkInv n.blk) (h : Core compound n) (pre body val : Bytes)
+    (cmpk : Bytes → Int) (hsk : WFS compound (pre ++ body)) (hpre : pre.length ≤ P)
+    (hcmp : ∀ st ∈ keys n, cmpk st = cmpS compound st (pre ++ body))
+    (hnew : ∀ st ∈ keys n, cmpk st ≠ 0) (n' : Node)
+    (e : addkvIns n cmpk pre body val = .ok n') : Geo n'.blk ∧ Core compound n' ∧ 0 < n'.pnum :=
+  let r := core_addkvIns' h pre body val (addSpec_of_blkInv hb _ _) cmpk hsk hpre hcmp hnew n' e
+  ⟨r.1, r.2.1, r.2.2.1⟩
 
 theorem used_lt {b : KvBlk} {i : Nat} (h : (sl b.slots i).len ≠ 0) : i < b.slots.length := by
   by_cases hi : i < b.slots.length
